@@ -83,7 +83,7 @@ pub fn gen(ctx: &Ctx) -> Vec<Value> {
             5 => 17,
             _ => r.usize(12),
         };
-        // malformed stream: ≈15 % of the cases carry positions that violate the schema
+        // malformed stream: a tenth of the random cases carry positions that violate the schema (3 % of the positions each)
         let cfg = if r.chance(1, 3) { ValCfg::strict() } else { ValCfg::new(if r.chance(3, 20) { 30 } else { 0 }) };
         let mut rows: Vec<Value> = (0..nrows).map(|_| gen_schema::gen_record(&mut r, &schema, &cfg)).collect();
         // a fifth of the cases announce wrong lengths at some container nodes (the call stream itself is unchanged)
